@@ -12,10 +12,31 @@ URLS = ['mariadb://', 'mariadb+pymysql://', 'mariadb+mysqldb://', 'mariadb+maria
         'oracle+oracledb://']
 
 
+def code_names():
+    """every string constant of SqlalchemyRender.__init__ (the dialect table lives there as a dict literal): candidate
+    dialect names read from the code at run time — a name added to the table is tried without editing NAMES"""
+    from mindsdb_sql.render.sqlalchemy_render import SqlalchemyRender
+    out = set()
+
+    def rec(code):
+        for c in code.co_consts:
+            if isinstance(c, str):
+                out.add(c)
+            elif isinstance(c, (tuple, frozenset)):
+                out.update(x for x in c if isinstance(x, str))
+            elif hasattr(c, 'co_consts'):
+                rec(c)
+    try:
+        rec(SqlalchemyRender.__init__.__code__)
+    except Exception:
+        pass
+    return sorted(x for x in out if x and len(x) < 40 and x.isprintable() and ' ' not in x)
+
+
 def construction_paths():
     """label -> constructor argument (label kinds: name:<str>, class:<pkg>.<sub>, url:<scheme>, instance:<pkg>)"""
     out = {}
-    for n in NAMES:
+    for n in NAMES + code_names():
         out['name:' + n] = n
     for pkg in PACKAGES:
         mod = importlib.import_module('sqlalchemy.dialects.' + pkg)
